@@ -16,7 +16,10 @@ __all__ = ['CSSProductions', 'MACROS', 'PRODUCTIONS']
 # a complete list of css3 macros
 MACROS = {
     'nonascii': r'[^\0-\177]',
-    'unicode': r'\\[0-9A-Fa-f]{1,6}(?:{nl}|{s})?',
+    # the longest run of hex digits (up to 6) belongs to the escape; without
+    # the lookahead '\\AA' could also be read as '\\A' + 'A', which makes a failing
+    # match on many escapes take exponential time
+    'unicode': r'\\(?:[0-9A-Fa-f]{6}|[0-9A-Fa-f]{1,5}(?![0-9A-Fa-f]))(?:{nl}|{s})?',
     # 'escape': r'{unicode}|\\[ -~\200-\777]',
     'escape': r'{unicode}|\\[^\n\r\f0-9a-f]',
     'nmstart': r'[_a-zA-Z]|{nonascii}|{escape}',
